@@ -1,0 +1,117 @@
+package compress
+
+import (
+	"io"
+	"sync"
+)
+
+// The end of the coded stream is not the end of the message. A decoder that has seen its
+// end marker reports io.EOF without reading the body below to its end (flate, brotli, a
+// single gzip member), or takes a body that broke off between two frames for its end
+// (zstd): whether the message itself ended - the terminating chunk, END_STREAM, the end of
+// the QUIC stream, the declared Content-Length - would then never be looked at, and a
+// response that was reset or cut behind its last coded byte would be a success.
+// withMessageEnd makes the decoder's io.EOF wait for the body's: what follows the coded
+// stream is discarded, an error of the body is the error of the read.
+func withMessageEnd(dec CompressReader) CompressReader {
+	return &endChecked{dec: dec}
+}
+
+type endChecked struct {
+	dec CompressReader // the decoder, lazily created over its underlying body
+	tb  *trackedBody   // what the decoder reads through, set on the first Read
+	err error          // sticky
+}
+
+func (e *endChecked) Read(p []byte) (int, error) {
+	if e.err != nil {
+		return 0, e.err
+	}
+	if e.tb == nil {
+		e.tb = &trackedBody{body: e.dec.GetUnderlyingBody()}
+		e.dec.SetUnderlyingBody(e.tb)
+	}
+	n, err := e.dec.Read(p)
+	if err == io.EOF {
+		err = e.tb.end()
+	}
+	if err != nil {
+		e.err = err
+	}
+	return n, err
+}
+
+func (e *endChecked) Close() error { return e.dec.Close() }
+
+func (e *endChecked) GetUnderlyingBody() io.ReadCloser {
+	if e.tb != nil {
+		return e.tb.get()
+	}
+	return e.dec.GetUnderlyingBody()
+}
+
+func (e *endChecked) SetUnderlyingBody(body io.ReadCloser) {
+	if e.tb != nil {
+		e.tb.set(body)
+		return
+	}
+	e.dec.SetUnderlyingBody(body)
+}
+
+// trackedBody remembers how the body it reads from ended.
+type trackedBody struct {
+	mu   sync.Mutex
+	body io.ReadCloser
+	err  error // the first error the body returned (io.EOF: it ended cleanly)
+}
+
+func (t *trackedBody) get() io.ReadCloser {
+	t.mu.Lock()
+	defer t.mu.Unlock()
+	return t.body
+}
+
+func (t *trackedBody) set(body io.ReadCloser) {
+	t.mu.Lock()
+	t.body = body
+	t.mu.Unlock()
+}
+
+func (t *trackedBody) ended() error {
+	t.mu.Lock()
+	defer t.mu.Unlock()
+	return t.err
+}
+
+func (t *trackedBody) Read(p []byte) (int, error) {
+	n, err := t.get().Read(p)
+	if err != nil {
+		t.mu.Lock()
+		if t.err == nil {
+			t.err = err
+		}
+		t.mu.Unlock()
+	}
+	return n, err
+}
+
+func (t *trackedBody) Close() error { return t.get().Close() }
+
+// end reads the body to its end and returns io.EOF if it ended cleanly, its error otherwise.
+func (t *trackedBody) end() error {
+	var buf [512]byte
+	for idle := 0; idle < 100; {
+		if err := t.ended(); err != nil {
+			return err
+		}
+		if n, _ := t.Read(buf[:]); n == 0 {
+			idle++
+		} else {
+			idle = 0
+		}
+	}
+	if err := t.ended(); err != nil {
+		return err
+	}
+	return io.ErrNoProgress
+}
